@@ -1,11 +1,10 @@
 import logging
-import re
 from typing import Any
 
 from pyopenapi_gen import IROperation
 
 from ....context.render_context import RenderContext
-from ....core.utils import Formatter, NameSanitizer
+from ....core.utils import Formatter
 from ....core.writers.code_writer import CodeWriter
 from ....core.writers.documentation_writer import escape_docstring_text
 from ....types.strategies import ResponseStrategyResolver
@@ -150,12 +149,15 @@ class EndpointMethodGenerator:
             writer.write_line(escape_docstring_text(f"- {content_type}"))
         writer.write_line('"""')
 
-        # Generate URL construction with sanitized path variables
-        formatted_path = re.sub(
-            r"{([^}]+)}", lambda m: f"{{{NameSanitizer.sanitize_method_name(str(m.group(1)))}}}", op.path
+        # URL, query, header and cookie arguments are built exactly as in the standard method
+        # (the request body is dispatched below, so no body parameter / content type is passed on)
+        non_body_params = [p for p in ordered_params if p.get("param_in") != "body"]
+        has_header_params = self.url_args_generator.generate_url_and_args(
+            writer, op, context, non_body_params, None, None
         )
-        writer.write_line(f'url = f"{{self.base_url}}{formatted_path}"')
-        writer.write_line("")
+        params_arg = "params" if any(p.param_in == "query" for p in op.parameters) else "None"
+        headers_arg = "headers" if has_header_params else "None"
+        cookies_arg = ", cookies=cookies" if any(p.param_in == "cookie" for p in op.parameters) else ""
 
         # Generate runtime dispatch logic
         writer.write_line("# Runtime dispatch based on content type")
@@ -180,9 +182,9 @@ class EndpointMethodGenerator:
                 writer.write_line("response = await self._transport.request(")
                 writer.indent()
                 writer.write_line(f'"{op.method.value.upper()}", url,')
-                writer.write_line("params=None,")
+                writer.write_line(f"params={params_arg},")
                 writer.write_line("json=json_body,")
-                writer.write_line("headers=None")
+                writer.write_line(f"headers={headers_arg}{cookies_arg}")
                 writer.dedent()
                 writer.write_line(")")
             elif content_type == "multipart/form-data":
@@ -190,9 +192,9 @@ class EndpointMethodGenerator:
                 writer.write_line("response = await self._transport.request(")
                 writer.indent()
                 writer.write_line(f'"{op.method.value.upper()}", url,')
-                writer.write_line("params=None,")
+                writer.write_line(f"params={params_arg},")
                 writer.write_line(f"files={param_info['name']},")
-                writer.write_line("headers=None")
+                writer.write_line(f"headers={headers_arg}{cookies_arg}")
                 writer.dedent()
                 writer.write_line(")")
             else:
@@ -200,9 +202,9 @@ class EndpointMethodGenerator:
                 writer.write_line("response = await self._transport.request(")
                 writer.indent()
                 writer.write_line(f'"{op.method.value.upper()}", url,')
-                writer.write_line("params=None,")
+                writer.write_line(f"params={params_arg},")
                 writer.write_line("data=data,")
-                writer.write_line("headers=None")
+                writer.write_line(f"headers={headers_arg}{cookies_arg}")
                 writer.dedent()
                 writer.write_line(")")
 
@@ -211,7 +213,16 @@ class EndpointMethodGenerator:
         # Add else clause for error
         writer.write_line("else:")
         writer.indent()
-        writer.write_line('raise ValueError("One of the content-type parameters must be provided")')
+        if op.request_body.required:
+            writer.write_line('raise ValueError("One of the content-type parameters must be provided")')
+        else:  # optional request body: send the request without a body
+            writer.write_line("response = await self._transport.request(")
+            writer.indent()
+            writer.write_line(f'"{op.method.value.upper()}", url,')
+            writer.write_line(f"params={params_arg},")
+            writer.write_line(f"headers={headers_arg}{cookies_arg}")
+            writer.dedent()
+            writer.write_line(")")
         writer.dedent()
         writer.write_line("")
 
